@@ -5,6 +5,7 @@ From Coq Require Import NArith ZArith List Bool.
 From Srtp Require Import Util Constants KeyLimit Rdb Rdbx Icm World Stream Rtp Rtcp Session.
 From Srtp.Crypto Require Import AES SHA1 HMAC.
 From Srtp.Spec Require Rfc3711.
+From Srtp Require BitvecModel EqualModel Sha1Model HmacModel.
 Import ListNotations.
 Local Open Scope Z_scope.
 
@@ -271,10 +272,25 @@ Definition run_api (m : mstate) (code : Z) (a : list Z) (b : list bytes) : mstat
     (set_ses m (ms_ses m) {| h_live := h_live h; h_att := 0; h_fail := 0; h_frees := 0; h_dirty := h_dirty h |},
      [OZ (h_live h); OZ (h_att h); OZ (h_frees h); OZ (h_dirty h)])
   else if code =? 74 then (m, [])
+  else if code =? 75 then (* mktag sid which ssrc keyidx is_rtcp | msg *)
+    match assoc (ms_ses m) (arg a 0) with
+    | None => (m, [OZ 0; OZ 0; OB []])
+    | Some s =>
+      match pick_stream s (arg a 1) (arg a 2) with
+      | None => (m, [OZ 0; OZ 0; OB []])
+      | Some t =>
+        match nth_error (s_keys t) (zn (arg a 3)) with
+        | None => (m, [OZ 0; OZ 0; OB []])
+        | Some k =>
+          let ak := if zb (arg a 4) then k_rtcp_a k else k_rtp_a k in
+          (m, [OZ 0; OZ 0; OB (if (arg a 3 <? 0) then [] else auth_compute ak (nth 0 b []))])
+        end
+      end
+    end
   else if (code =? 70) || (code =? 71) then
     (* spec_rtp / spec_rtcp  conf auth tag roc|index | mkey msalt mki xtn_ids pkt : the RFC specification's packet *)
     let q := {| Rfc3711.rp_mkey := nth 0 b []; Rfc3711.rp_msalt := nth 1 b [];
-                Rfc3711.rp_conf := zb (arg a 0); Rfc3711.rp_auth := zb (arg a 1); Rfc3711.rp_tag := zn (arg a 2);
+                Rfc3711.rp_conf := zb (Z.land (arg a 0) 1); Rfc3711.rp_null := zb (Z.land (arg a 0) 2); Rfc3711.rp_auth := zb (arg a 1); Rfc3711.rp_tag := zn (arg a 2);
                 Rfc3711.rp_mki := nth 2 b []; Rfc3711.rp_xtn_ids := nth 3 b [] |} in
     (m, [OZ 0; OZ 0; OB (if code =? 70 then Rfc3711.srtp_protect q (Z.to_N (arg a 3)) (nth 4 b [])
                          else Rfc3711.srtcp_protect q (Z.to_N (arg a 3)) (nth 4 b []))])
@@ -283,6 +299,82 @@ Definition run_api (m : mstate) (code : Z) (a : list Z) (b : list bytes) : mstat
     (m, [OZ 0; OZ 0; OB (Rfc3711.kdf (nth 0 b []) (nth 1 b []) (Z.to_N (arg a 0)) (zn (arg a 1)))])
   else (m, [OZ (-1)]).
 
+(* ---- crypto-kernel leaf operations (C18): the word- / chunk-level models of the C loops ---- *)
+(* split data into chunks of the given sizes, the remainder last (sizes clipped to what is left) *)
+Fixpoint chunks_of (sizes : list Z) (d : bytes) : list bytes :=
+  match sizes with
+  | [] => match d with [] => [] | _ => [d] end
+  | n :: t => match d with
+              | [] => []
+              | _ => let k := Nat.min (zn n) (length d) in take k d :: chunks_of t (drop k d)
+              end
+  end.
+
+(* big-endian hex number -> n little-endian 32-bit words *)
+Fixpoint words_of (n : nat) (x : N) : list N :=
+  match n with O => [] | S n' => (x mod 4294967296)%N :: words_of n' (x / 4294967296)%N end.
+
+Fixpoint icm_chunks (rks : list bytes) (c : icm) (cs : list bytes) (acc : bytes) : Z * bytes :=
+  match cs with
+  | [] => (st_ok, acc)
+  | d :: t => let '(s, c', o) := icm_encrypt (aes_encrypt_rk rks) c d in
+              if s =? st_ok then icm_chunks rks c' t (acc ++ o) else (s, acc)
+  end.
+
+Definition run_kernel (m : mstate) (code : Z) (a : list Z) (b : list bytes) : mstate * list outv :=
+  if code =? 30 then (* aes | key block *)
+    let key := nth 0 b [] in
+    if (lenZ key =? 16) || (lenZ key =? 24) || (lenZ key =? 32) then
+      (m, [OZ st_ok; OB (aes_encrypt key (take 16 (nth 1 b [] ++ zeros 16)))])
+    else (m, [OZ st_bad_param; OB (take 16 (nth 1 b [] ++ zeros 16))])
+  else if code =? 33 then (* icm misalign chunk.. | key iv data *)
+    let key := nth 0 b [] in
+    let klen := lenZ key in
+    if (klen =? SRTP_AES_ICM_128_KEY_LEN_WSALT_c) || (klen =? SRTP_AES_ICM_256_KEY_LEN_WSALT_c) then
+      let k := cipher_key (cipher_alg_of SRTP_AES_ICM_128_c klen) klen key in
+      let c0 := icm_set_iv (icm_init (ck_salt k)) (nth 1 b []) in
+      let '(s, o) := icm_chunks (ck_rks k) c0 (chunks_of (tl a) (nth 2 b [])) [] in
+      (m, [OZ s; OB o])
+    else (m, [OZ st_bad_param])
+  else if code =? 34 then (* sha1 chunk.. | msg *)
+    let c := fold_left (Sha1Model.sha1m_update sha1_compress) (chunks_of a (nth 0 b [])) Sha1Model.sha1m_init in
+    (m, [OB (sha1_words_to_bytes (Sha1Model.sha1m_final sha1_compress c))])
+  else if code =? 35 then (* hmac taglen chunk.. | key msg *)
+    let key := nth 0 b [] in
+    let tl_ := arg a 0 in
+    if (hmac_max_key_c <? lenZ key) || (hmac_max_out_c <? tl_) then (m, [OZ st_bad_param])
+    else
+      match HmacModel.hmac_init sha1_compress key with
+      | None => (m, [OZ st_bad_param])
+      | Some st0 =>
+        let cs := chunks_of (tl a) (nth 1 b []) in
+        (* the driver feeds every chunk but the last through update and the last through compute;
+           when the chunk sizes cover the whole message the last compute gets the empty remainder *)
+        let sizes_total := fold_left Z.add (tl a) 0 in
+        let '(upd, last) :=
+          if lenZ (nth 1 b []) <=? sizes_total then (cs, [])
+          else (removelast cs, last cs []) in
+        match HmacModel.hmac_compute sha1_compress (fold_left (HmacModel.hmac_update sha1_compress) upd (HmacModel.hmac_start st0)) last (zn tl_) with
+        | Some (_, tag) => (m, [OZ st_ok; OB tag])
+        | None => (m, [OZ st_bad_param; OB []])
+        end
+      end
+  else if code =? 36 then (* oct_eq | a b *)
+    let x := nth 0 b [] in let y := nth 1 b [] in
+    let n := Nat.min (length x) (length y) in
+    (m, [OZ (if EqualModel.oct_equal_sse2 x y n then 1 else 0)])
+  else if code =? 37 then (* v128_shift s | value *)
+    (m, [ON (BitvecModel.pack (BitvecModel.v128_left_shift (words_of 4 (be_val (nth 0 b []))) (Z.to_N (arg a 0))))])
+  else if code =? 38 then (* bv_shift len s | value *)
+    let len := arg a 0 in
+    let nw := zn ((len + 31) / 32) in
+    if Nat.eqb nw 0 then (m, [OZ (-1)])
+    else (m, [OZ (32 * Z.of_nat nw);
+              ON (BitvecModel.pack (BitvecModel.bv_left_shift (words_of nw (be_val (nth 0 b []))) (Z.to_N (arg a 1))))])
+  else (m, [OZ (-1)]).
+
 Definition run_op (m : mstate) (code : Z) (a : list Z) (b : list bytes) : mstate * list outv :=
-  if code <? 50 then run_leaf m code a b else run_api m code a b.
+  if code <? 30 then run_leaf m code a b
+  else if code <? 50 then run_kernel m code a b
+  else run_api m code a b.
 
